@@ -199,7 +199,12 @@ class TaskScenario(ScenarioData):
             # (unless we have onstart deps, which we checked above)
             return True
 
-        return all(successor.get("scheduled", self.scenarioIdx) for successor in successors)
+        # A forward-scheduled successor waits for THIS task to be placed: it cannot
+        # supply an end date, and waiting for it in turn would deadlock both.
+        return all(
+            successor.get("scheduled", self.scenarioIdx) or successor.get("forward", self.scenarioIdx) is not False
+            for successor in successors
+        )
 
     def _getSuccessors(self) -> list[Any]:
         """
